@@ -12,7 +12,6 @@ NA = {
     "C02": "seven stateless smoothing kernels; 'compiled == interpreted' compares two implementations on equal inputs, there is no interleaving, clock, I/O or fault for a simulator to own (numba's on-disk cache is neutralised, DESIGN 2.11).",
     "C04": "rotation / periodicity / percentile identities between pure numeric calls; the only state is a scalar the identities are stated in terms of.",
     "C10": "windows are a function of (record, settings) alone: index arithmetic and step order inside one call; nothing history-, schedule- or storage-dependent.",
-    "C13": "a per-window decision function of the samples and limits; the coupling to the HVSR object is one unconditional mask overwrite that reads no earlier state (it appears only as a history operation in the HVSR-object machine).",
     "C14": "convex geometry plus a Monte-Carlo whose generator is an explicit argument: given the generator nothing nondeterministic is left to control.",
     "C16": "two pure functions of arrays and scalars returning verdict vectors.",
     "C17": "Parseval/Welch normalisation and analytic preprocessing identities of single calls; no state, schedule or storage involved.",
@@ -31,6 +30,8 @@ TEXT = {
             "trusts numpy and the weighted stats model"),
     "C12": ("hvsrobj", "3.2", "seeded search over histories before the write plus storage faults on a simulated disk under the real I/O stack; read-back object vs written object (curves bitwise, masks, range, peaks, every statistic), the file's derived columns vs the object, second-generation identity, and lock-step continuation of the history on both objects",
             "trusts the strict parser of the file format and SimFS; a torn file from a failed or crashed write is probe-counted only (the property speaks of completed writes)"),
+    "C13": ("hvsrobj", "3.2", "seeded search over histories of the attached result object (range updates, frequency-domain / manual rejections, mask edits, earlier time-domain rejections) and over the container, order and identity of the window list; after every STA/LTA or maximum-value rejection the returned windows must be the given objects in order, both accept masks of every azimuth must equal that selection whatever state the history left, the selection must not depend on the attached object, the windows must be unchanged; verdicts are judged against a reference only where the property says 'clearly', plus model-free twins (rescaling, widened limits, conjunction of components, window alone, permuted list, repeated call)",
+            "the per-window decision itself is a pure function (judged as a by-product, only for clear cases); the history/identity clauses are what the simulator owns; trusts models/stalta.py"),
     "C20": ("hvsrobj", "3.2", "seeded search over object states reached by histories, plotting options and injected exceptions inside plotting calls on the Agg back end; snapshot before == after (also on exception exit) and drawn artists / captured table == object state",
             "artists are judged, not pixels; Agg back end only"),
     "C07": ("reader", "3.3", "seeded search over stored layouts (8 formats), trace/file orders, read() argument routing and storage faults (torn, dropped, duplicated, flipped, CRLF, header-count mismatch, read errors) between recorder and reader; exact samples/dt/orientation when intact, must-raise for the cases the property names, raise-or-exact under other damage",
